@@ -155,17 +155,17 @@ def oracle(c, out, scales):
 def run(report, tier):
     E.setup_report(report, "C03")
     backends = ["f64", "dec"]
-    frontend.dump_repo_parallel(backends)
+    keys = E.dump_worlds(backends)
     pool = mpool.Pool()
     try:
-        desc = {be: pool.describe(be) for be in backends}
-        tasks = [(be, q, ua) for be in backends for q in desc[be]["qty"] if desc[be]["has_ref"][q] for ua in desc[be]["units"][q]]
+        desc = E.describe_worlds(pool, keys)
+        tasks = E.ref_tasks(keys, desc)
         E.shuffle(tasks)
         report.bounds.update(E.bounds_box1())
         report.bounds["ratio_box"] = "f64: 2^-400 <= |a|,|b| <= 2^400 (a may be 0); decimal: b != 0 and |b*sb/sa| >= 2e-18 (1+|b|)"
         cands = pool.run(report, task, tasks)
+        pool.cross_check(report)
         E.native_confirm(report, "C03", cands, desc, oracle, probes=E.probe_amounts_2)
-        if tier == "thorough":
-            E.translator_validation(report, pool, desc, ops=("add", "sub", "ratio"))
+        E.translator_validation(report, pool, desc, ops=("add", "sub", "ratio"), full=(tier == "thorough"))
     finally:
         pool.close()
